@@ -45,6 +45,10 @@ func TestCancelWhileRunning(t *testing.T) {
 	})
 }
 
+var collExact = vkit.NewCollector("C06", "TestExactlyOnce", "2-7 handlers in drawn subscription order from {Async, Async+Sequential, Once, Once+Async, a synchronous handler that republishes every top-level event once}, all subscribed before the first publish; 1-3 goroutines publish 1-6 events each (barrier start, drawn GOMAXPROCS), 10 fresh buses per case. Oracle after Wait: every asynchronous (and republishing) handler ran exactly once for every event, top-level and nested, although Once handlers were retired from the registry by overlapping and nested publishes meanwhile; every Once handler ran exactly once. Non-trivial = a Once handler and an asynchronous handler in the same case.")
+
+func TestExactlyOnce(t *testing.T) { vkit.Check(t, collExact, GenExact, RunExact) }
+
 var collRace = vkit.NewCollector("C06", "TestWaitRace", "free-running stress on real goroutines (race detector on): 200-600 rounds per case in which a quick Async handler signals that it is about to return and spins for a varying time, the publisher publishes a second event as soon as it sees the signal and calls Wait (mode publish), or calls Wait after a varying spin of its own with no further publish (mode last), or publishes to a trivial handler and calls Wait after a varying distance with no handshake (mode free); oracle = every invocation finished when Wait returns, and Wait returns: a Wait still blocked 40 s after every invocation has finished, with nothing moving, is a hang. Non-trivial = >=2 rounds.")
 
 var collTrickle = vkit.NewCollector("C06", "TestWaitTrickle", "free-running volume stress on real goroutines (no race detector): 100-300 rounds per case in which 5-40 events are published with small varying gaps to 1-16 Async handlers (three quarters of the cases with Sequential), then Wait; oracle = every delivery has run when Wait returns, and Wait returns (stall oracle as in TestWaitRace). Non-trivial = >=2 rounds.")
@@ -56,5 +60,5 @@ func TestWaitRace(t *testing.T) { vkit.Check(t, collRace, GenRace, RunRace) }
 func TestReplay(t *testing.T) {
 	r := vkit.NeedReplay(t)
 	_ = vkit.ReplayCase(t, r, coll, func(c *Case) *vkit.Outcome { return Run(t, c) }) ||
-		vkit.ReplayCase(t, r, collRace, RunRace) || vkit.ReplayCase(t, r, collTrickle, RunRace) || vkit.ReplayCase(t, r, collCancel, func(c *CancelCase) *vkit.Outcome { return RunCancel(t, c) }) || vkit.ReplayCase(t, r, collRunning, func(c *RunningCase) *vkit.Outcome { return RunRunning(t, c) })
+		vkit.ReplayCase(t, r, collRace, RunRace) || vkit.ReplayCase(t, r, collTrickle, RunRace) || vkit.ReplayCase(t, r, collCancel, func(c *CancelCase) *vkit.Outcome { return RunCancel(t, c) }) || vkit.ReplayCase(t, r, collRunning, func(c *RunningCase) *vkit.Outcome { return RunRunning(t, c) }) || vkit.ReplayCase(t, r, collExact, RunExact)
 }
